@@ -402,6 +402,11 @@ func (s *Syncer) LoadOnce(ctx context.Context, env *lmdb.Env, instance string, u
 
 		// Apply snapshot
 		tLoadStart = time.Now()
+		// Refuse a snapshot we cannot read, also when it does not contain any
+		// DBI that would be merged (only then the per-DBI check below runs).
+		if err := checkSnapshotVersions(snap.FormatVersion, snap.CompatVersion); err != nil {
+			return err
+		}
 		for _, dbiMsg := range snap.Databases {
 			dbiName := dbiMsg.Name()
 			dbiOpt := s.lc.DBIOptions[dbiName]
